@@ -110,6 +110,24 @@ def mergerStep (step : Bool) (blockSize : Nat) (written : List (Nat × Option (L
 def mergerRun (step : Bool) (blockSize : Nat) (calls : List MergeCall) : List (Nat × Option (List Node)) :=
   calls.foldl (mergerStep step blockSize) []
 
+/-! ### a sequence of lookups on one bucket object (round 10) -/
+
+/-- the lookup object: exactly the fields of `model.TrieBucket` (`kvs`, `blockSize`; tie
+`gen_bucket_no_lookup_state`) — there is no memo of earlier lookups and no reference to a caller's key -/
+structure BucketObj where
+  kvs : List Node
+  blockSize : Nat
+
+/-- `TrieBucket.GetValue(key)`: walks `b.kvs` (`bucketGet`); the object is not written -/
+def getValueStep (eon : Bool) (b : BucketObj) (key : Key) : BucketObj × Option Nat :=
+  (b, bucketGet eon b.kvs key)
+
+/-- any sequence of `GetValue` calls on one object (the write path resolves one tag value after the other
+against a cached bucket) -/
+def lookupSession (eon : Bool) (b : BucketObj) : List Key → List (Option Nat)
+  | [] => []
+  | k :: ks => (getValueStep eon b k).2 :: lookupSession eon (getValueStep eon b k).1 ks
+
 /-! ### like dispatch (index/kv_store.go `indexKVStore.FindValuesByLike`) -/
 
 /-- `'*'` -/
